@@ -82,6 +82,8 @@ struct Peek : yaclib::detail::BaseCore {
 
 // payload whose constructions / destructions are counted (consumed futures must release it exactly once)
 int gLive = 0;
+// virtual time of the sync-hook lines of the trace (index into ctx.trace -> ns)
+std::vector<std::pair<std::size_t, unsigned long long>> gSyncTimes;
 struct Tracked {
   int v;
   explicit Tracked(int x) : v{x} { ++gLive; }
@@ -178,6 +180,7 @@ std::unordered_set<unsigned long long>* gInWaitFor = nullptr;  // fiber ids curr
 
 void RunScenario(const Scenario& sc) {
   QuarantineScope quarantine;
+  gSyncTimes.clear();
   gLive = 0;
   gRcNames = 0;
   std::unordered_set<unsigned long long> in_wait_for;
@@ -260,6 +263,60 @@ void RunScenario(const Scenario& sc) {
   gInWaitFor = nullptr;
 }
 
+
+unsigned long long TimeOfLine(std::size_t idx) {
+  for (auto& p : gSyncTimes) {
+    if (p.first == idx) return p.second;
+  }
+  return 0;
+}
+
+// No lost wake-up, checked on the implementation in virtual time: `Set()` notifies the event's condition variable (queue q) under
+// the event's mutex, exactly once.  A timed waiter that parks on q AFTER that notification went to sleep although the flag was
+// already set — nothing will wake it but its own timeout — and a timeout wake-up on q after the notification means the waiter
+// sat out its deadline although it had been released before (model: `sleeping_waiter_is_woken`, `quiescent_complete`).
+// `reset_at`: trace lines at which event addresses may be reused (a new wait call of the same waiter).
+std::string LostWakeUp(const std::vector<std::string>& trace, const char* model_ref,
+                       bool (*reset_at)(const std::vector<std::string>&)) {
+  std::map<std::string, std::pair<std::string, std::size_t>> notified;  // queue -> (notifier, line)
+  for (std::size_t k = 0; k < trace.size(); ++k) {
+    std::vector<std::string> t;
+    {
+      std::string cur;
+      for (char ch : trace[k]) {
+        if (ch == ' ') {
+          if (!cur.empty()) t.push_back(cur);
+          cur.clear();
+        } else {
+          cur += ch;
+        }
+      }
+      if (!cur.empty()) t.push_back(cur);
+    }
+    if (t.size() < 4) continue;
+    if (reset_at != nullptr && reset_at(t)) notified.clear();
+    if (t[1] != "M" || t[2][0] != 'q') continue;
+    if (t[3] == "notify_one" || t[3] == "notify_all") {
+      if (!notified.count(t[2])) notified[t[2]] = {t[0], k};
+    } else if (t[3] == "park_timed") {
+      auto it = notified.find(t[2]);
+      if (it != notified.end() && it->second.first != t[0]) {
+        return "timed waiter " + t[0] + " slept although the event was already set (released only by its timeout): Set by " +
+               it->second.first + " at virtual time " + std::to_string(TimeOfLine(it->second.second)) + " ns, waiter parked at " +
+               std::to_string(TimeOfLine(k)) + " ns [lost wake-up; model: " + model_ref + "]";
+      }
+    } else if (t[3] == "wake" && t.size() > 4 && t[4] == "1") {
+      auto it = notified.find(t[2]);
+      if (it != notified.end() && it->second.first != t[0]) {
+        return "timed waiter " + t[0] + " was released only at its deadline T=" + std::to_string(TimeOfLine(k)) +
+               " ns although the event was set at t0=" + std::to_string(TimeOfLine(it->second.second)) + " ns < T [model: " +
+               model_ref + "]";
+      }
+    }
+  }
+  return "";
+}
+
 std::vector<std::string> Split(const std::string& s) {
   std::vector<std::string> out;
   std::string cur;
@@ -290,6 +347,12 @@ std::string Monitor(const Scenario& sc, bool done) {
     else ++it;
   }
   if (!done) return "";
+  {
+    // the heap waiters of timed waits are quarantined: their queues keep their names for the whole execution
+    auto lost = LostWakeUp(ctx.trace, "Props.C16.quiescent_complete / released_only_at_zero (every waiter registered before zero is released by it)",
+                           nullptr);
+    if (!lost.empty()) return lost;
+  }
   long long count = 0;
   for (auto h : sc.held) count += h;
   bool zero_seen = false;
@@ -393,6 +456,12 @@ int main(int argc, char** argv) {
       }
     }
     ctx->OnAtomic(obj, op, so, fo, a, e, r, ok);
+  };
+  yaclib::verif::gHooks.on_sync = [](void* c, const void* obj, int op, int res) {
+    auto* ctx = static_cast<vx::Ctx*>(c);
+    std::size_t before = ctx->trace.size();
+    ctx->OnSync(obj, op, res);
+    if (ctx->trace.size() > before) gSyncTimes.emplace_back(before, yaclib::fault::Scheduler::GetScheduler()->GetTimeNs());
   };
   for (auto& sc : AllScenarios(thorough)) {
     ex.Run(sc.Header(), [&] { RunScenario(sc); }, [&](bool done) { return Monitor(sc, done); });
